@@ -28,9 +28,16 @@ impl Vis {
             Vis::PubInA => format!("pub(in crate::{case}::a) "),
         }
     }
+
+    /// nameable from another crate (every enclosing module is `pub`)?
+    fn exported(&self) -> bool {
+        *self == Vis::Pub
+    }
 }
 
 const SITES: [&str; 6] = ["same", "child", "sibling", "uncle", "root", "cousin"];
+/// the seventh site: a different crate (`use ::xlib::<point>::a::b::c::Trait as _;`), built once per lattice point
+const EXTERN_SITE: &str = "other crate";
 
 /// is an item of visibility `v` defined in a::b::c nameable from `site`?
 fn accessible(v: Vis, site: &str) -> bool {
@@ -48,7 +55,8 @@ pub struct Probe {
     pub summary: String,
 }
 
-fn build(case: &str, mode: &str, v: Vis, item_vis: &str, site: &str) -> Probe {
+/// the entraited item of one lattice point and the name of the trait whose visibility is probed
+fn item_of(case: &str, mode: &str, v: Vis, item_vis: &str) -> (String, &'static str) {
     let vs = v.src(case);
     // an unrelated option rotates through the lattice: it must not influence visibility
     let n: usize = case[1..].parse().unwrap_or(0);
@@ -60,6 +68,28 @@ fn build(case: &str, mode: &str, v: Vis, item_vis: &str, site: &str) -> Probe {
         "trait_static" => (format!("#[::entrait::entrait({item_vis}TrImpl, delegate_by = DelegateTr{extra})]\n{vs}trait Tr {{ fn m(&self); }}"), "TrImpl"),
         _ => (format!("#[::entrait::entrait({item_vis}TrImpl, delegate_by = ref{extra})]\n{vs}trait Tr {{ fn m(&self); }}"), "TrImpl"),
     };
+    (item, name)
+}
+
+/// one module of the library crate: the item in `<point>::a::b::c`, every module `pub`
+fn lib_module(point: &str, mode: &str, v: Vis, item_vis: &str) -> String {
+    let (item, _) = item_of(point, mode, v, item_vis);
+    format!("pub mod {point} {{\n  pub mod a {{\n    pub mod b {{\n      pub mod c {{\n        {}\n      }}\n    }}\n  }}\n}}\n", item.replace('\n', "\n        "))
+}
+
+fn extern_probe(point: &str, mode: &str, v: Vis, item_vis: &str) -> Probe {
+    let (_, name) = item_of(point, mode, v, item_vis);
+    let via = if mode == "mod_path" { "::m" } else { "" };
+    let src = format!("#![allow(warnings)]\n#[allow(unused_imports)] fn site() {{ use ::xlib::{point}::a::b::c{via}::{name} as _; }}\npub fn run() -> Vec<String> {{ vec![] }}\n");
+    let summary = format!("{mode}: requested `{}` item `{}` named from `{EXTERN_SITE}`", v.src(point).trim(), item_vis.trim());
+    // through the module path the module itself has to be `pub` as well
+    let expect_ok = v.exported() && (mode != "mod_path" || item_vis.trim() == "pub");
+    Probe { src, expect_ok, summary }
+}
+
+fn build(case: &str, mode: &str, v: Vis, item_vis: &str, site: &str) -> Probe {
+    let vs = v.src(case);
+    let (item, name) = item_of(case, mode, v, item_vis);
     // `mod_path`: reach the trait through the module it was generated in (`c::m::TheTrait`) instead of the re-export
     let via = if mode == "mod_path" { "::m" } else { "" };
     let site_fn = |rel: &str| format!("#[allow(unused_imports)] fn site() {{ use {rel}{via}::{name} as _; }}");
@@ -119,9 +149,13 @@ fn all_probes() -> Vec<(String, String, Vis, String, String)> {
 }
 
 fn compile_single(src: &str) -> Result<(), String> {
+    compile_single_with(src, None)
+}
+
+fn compile_single_with(src: &str, xlib: Option<String>) -> Result<(), String> {
     // the case id is part of `pub(in ..)` / cousin paths: single builds reuse the id the source was generated with
     let id = src.split("crate::").nth(1).and_then(|r| r.split("::").next()).filter(|s| s.starts_with('c')).unwrap_or("c00000").to_string();
-    let mut b = Batch::new("c13-single", Opts { feature_unimock: false, members: 1, check_only: true, ..Default::default() });
+    let mut b = Batch::new("c13-single", Opts { feature_unimock: false, members: 1, check_only: true, xlib, ..Default::default() });
     b.add(&id, src.to_string());
     let out = b.build_and_run();
     b.cleanup();
@@ -133,10 +167,10 @@ fn compile_single(src: &str) -> Result<(), String> {
 
 pub fn run(ctx: &mut Ctx) {
     ctx.rule = "the complete lattice {fn x requested {none, pub, pub(crate), pub(super), pub(in path)} x fn visibility {none, pub, pub(crate)}} + {mod x requested {none, pub, pub(crate)} x mod \
-                visibility {none, pub}, named through the re-export and through the module path} + {trait, static and ref delegation (delegation-target trait) x trait visibility (5) x visibility keyword written before the target trait's name {none, pub, pub(crate)}} x 6 access sites (defining module, child, sibling, uncle, case root, cousin); one compiled probe \
+                visibility {none, pub}, named through the re-export and through the module path} + {trait, static and ref delegation (delegation-target trait) x trait visibility (5) x visibility keyword written before the target trait's name {none, pub, pub(crate)}} x 6 access sites (defining module, child, sibling, uncle, case root, cousin) + the same lattice points in a library crate named from a second crate (7th site); one compiled probe \
                 per point; non-trivial = probes expected to be rejected (the trait must not be wider than requested) - counted distinct by (mode, visibilities, site)"
         .into();
-    ctx.assumptions.push("don't-cares: module mode with pub(super)/pub(in path) (documented as unsupported), the visibility of the selector trait `DelegateTr`; the other-crate site is not built".into());
+    ctx.assumptions.push("don't-cares: module mode with pub(super)/pub(in path) (documented as unsupported), the visibility of the selector trait `DelegateTr`".into());
     let list = all_probes();
     let mut batch = Batch::new("c13", Opts { feature_unimock: false, members: 16, check_only: true, ..Default::default() });
     let mut probes: Vec<Probe> = vec![];
@@ -184,12 +218,70 @@ pub fn run(ctx: &mut Ctx) {
             }
         }
     }
+    if !extern_leg(ctx, &list) {
+        return;
+    }
     ctx.exhaustive = Some(true);
+}
+
+/// the other-crate site: one library crate holds every lattice point, one client module per point names its trait
+fn extern_leg(ctx: &mut Ctx, list: &[(String, String, Vis, String, String)]) -> bool {
+    let mut points: Vec<(String, Vis, String)> = vec![];
+    for (mode, _, v, iv, _) in list {
+        let k = (mode.clone(), *v, iv.clone());
+        if !points.contains(&k) {
+            points.push(k);
+        }
+    }
+    let mut lib = String::from("#![allow(warnings)]\n");
+    let mut probes = vec![];
+    for (i, (mode, v, iv)) in points.iter().enumerate() {
+        let point = format!("p{i:05}");
+        lib.push_str(&lib_module(&point, mode, *v, iv));
+        probes.push(extern_probe(&point, mode, *v, iv));
+    }
+    let mut batch = Batch::new("c13-extern", Opts { feature_unimock: false, members: 8, check_only: true, xlib: Some(lib.clone()), ..Default::default() });
+    for (i, p) in probes.iter().enumerate() {
+        batch.add(&format!("c{i:05}"), p.src.clone());
+    }
+    let out = batch.build_and_run();
+    batch.cleanup();
+    for (i, p) in probes.iter().enumerate() {
+        let id = format!("c{i:05}");
+        ctx.count_eval();
+        let replay = json!({"engine": "E2", "src": p.src, "xlib": lib, "summary": p.summary, "expect": if p.expect_ok { "ok" } else { "rejected" }});
+        match (p.expect_ok, out.compile_failed.get(&id)) {
+            (true, None) => ctx.class("accessible_as_expected:other_crate"),
+            (false, Some(d)) => {
+                if !d.iter().any(|x| ["E0603", "E0433", "E0432"].contains(&x.code.as_str()) || x.message.contains("private")) {
+                    crate::ev::inconclusive(&format!("negative probe failed with an unrelated error: {} -- {}", d.first().map(|x| x.rendered.clone()).unwrap_or_default(), p.summary));
+                }
+                ctx.class("rejected_as_expected:other_crate");
+                ctx.nontrivial(&p.summary);
+                ctx.sample(|| json!(p.summary));
+            }
+            (true, Some(d)) => {
+                ctx.violation(&format!("the trait is narrower than requested: {} -- {}", d.first().map(|x| format!("{} {}", x.code, x.message)).unwrap_or_default(), p.summary), &replay);
+                return false;
+            }
+            (false, None) => {
+                if compile_single_with(&p.src, Some(lib.clone())).is_ok() {
+                    ctx.violation(&format!("the trait is wider than requested: another crate can name it -- {}", p.summary), &replay);
+                    return false;
+                }
+                ctx.class("rejected_as_expected:other_crate");
+                ctx.nontrivial(&p.summary);
+            }
+        }
+    }
+    ctx.extra.insert("other_crate_points".into(), json!(probes.len()));
+    true
 }
 
 pub fn replay(ctx: &mut Ctx, v: &Value) {
     ctx.count_eval();
-    let r = compile_single(&super::s(v, "src"));
+    let xlib = v.get("xlib").and_then(|x| x.as_str()).map(String::from);
+    let r = compile_single_with(&super::s(v, "src"), xlib);
     match (super::s(v, "expect").as_str(), r) {
         ("rejected", Ok(())) => ctx.violation("the trait is wider than requested", v),
         ("ok", Err(e)) => ctx.violation(&format!("the trait is narrower than requested: {e}"), v),
